@@ -79,6 +79,7 @@ def run(ck):
     _C04.r3(ck, F, rid="C01.R18")
     C09.dispatch_forwarding(ck, F, rid="C01.R19", only={"enabled", "register_callsite", "max_level_hint"})
     from rules import C02 as _C02
+    _C02.r1(ck, F, rid="C01.R17")      # the count behind the fast path: one RMW per guard, symmetric
     _C02.r2(ck, F, rid="C01.R17")
     _C02.r3(ck, F, rid="C01.R17")
     _C02.r4(ck, F, rid="C01.R17")
@@ -472,7 +473,7 @@ def r5(ck, F, rid="C01.R5"):
 
 
 # ------------------------------------------------------------------ R6
-def r6(ck, F):
+def r6(ck, F, rid="C01.R6"):
     D = "tracing_core::dispatch::"
     KIND = D + "Kind"
     ok_sites = 0
@@ -510,39 +511,39 @@ def r6(ck, F):
                 kind = col[0]
             if b.path == D + "set_global_default":
                 # leaks/re-wraps the collector of an existing Dispatch (already registered when it was created)
-                ck.ok("C01.R6", key + " (%s)" % kind, fn=b.path, detail="re-wraps the collector of the Dispatch passed in")
+                ck.ok(rid, key + " (%s)" % kind, fn=b.path, detail="re-wraps the collector of the Dispatch passed in")
                 continue
             if fresh:
                 # must call register_dispatch on every return path
                 rd = [bb for bb, t in b.calls() if t["callee"].get("path") == "tracing_core::callsite::inner::register_dispatch" or t["callee"].get("path") == "tracing_core::callsite::register_dispatch"]
                 good = bool(rd) and all(any(r in p.blocks for r in rd) for p in PathEval(b).run() if p.end == "return")
                 if good:
-                    ck.ok("C01.R6", key + " (%s) and registers it" % kind, fn=b.path)
+                    ck.ok(rid, key + " (%s) and registers it" % kind, fn=b.path)
                 else:
-                    ck.bad("C01.R6", key + " without register_dispatch", where(s["sp"]),
+                    ck.bad(rid, key + " without register_dispatch", where(s["sp"]),
                            "a Dispatch around a new collector is returned without callsite::register_dispatch: cached interests and MAX_LEVEL would not account for it", fn=b.path)
             else:
-                ck.ok("C01.R6", key + " (%s)" % kind, fn=b.path, nontrivial=False)
+                ck.ok(rid, key + " (%s)" % kind, fn=b.path, nontrivial=False)
     # statics: NONE and GLOBAL_DISPATCH initialisers hold NO_COLLECTOR
     for st in ("NONE", "GLOBAL_DISPATCH"):
         c = F.consts.get(D + st)
-        if not ck.anchor("C01.R6", st, c):
+        if not ck.anchor(rid, st, c):
             continue
         txt = str(c.get("val"))
         if "NO_COLLECTOR" in txt:
-            ck.ok("C01.R6", "static %s holds NO_COLLECTOR" % st)
+            ck.ok(rid, "static %s holds NO_COLLECTOR" % st)
         else:
-            ck.bad("C01.R6", "static %s holds NO_COLLECTOR" % st, D + st, "initialiser: %s" % txt[:200])
+            ck.bad(rid, "static %s holds NO_COLLECTOR" % st, D + st, "initialiser: %s" % txt[:200])
     # register_dispatch and rebuild_interest_cache rebuild
     for fn in ("register_dispatch", "rebuild_interest_cache"):
         b = F.body(CS + fn)
-        if not ck.anchor("C01.R6", fn, b):
+        if not ck.anchor(rid, fn, b):
             continue
         rb = [bb for bb, t in b.calls() if t["callee"].get("path") == rebuild_interest_path(F)]
         if len(rb) == 1 and b.postdominates(rb[0], 0):
-            ck.ok("C01.R6", "%s rebuilds every cached interest and the max level" % fn, fn=b.path)
+            ck.ok(rid, "%s rebuilds every cached interest and the max level" % fn, fn=b.path)
         else:
-            ck.bad("C01.R6", "%s rebuilds every cached interest and the max level" % fn, where(b.raw["sp"]), "rebuild_interest is not executed on every path", fn=b.path)
+            ck.bad(rid, "%s rebuilds every cached interest and the max level" % fn, where(b.raw["sp"]), "rebuild_interest is not executed on every path", fn=b.path)
     # register_dispatch pushes the new registrar *before* rebuilding
     b = F.body(CS + "register_dispatch")
     if b:
@@ -553,11 +554,11 @@ def r6(ck, F):
             src = b.origin(t["argv"][1])
             ok = src[0] == "call" and src[2]["callee"].get("method") == "registrar" and b.origin(src[2]["argv"][0])[0] == "arg"
             if ok:
-                ck.ok("C01.R6", "register_dispatch adds the new dispatcher before rebuilding", fn=b.path)
+                ck.ok(rid, "register_dispatch adds the new dispatcher before rebuilding", fn=b.path)
             else:
-                ck.bad("C01.R6", "register_dispatch adds the new dispatcher before rebuilding", where(b.raw["sp"]), "pushed value is not dispatch.registrar()", fn=b.path)
+                ck.bad(rid, "register_dispatch adds the new dispatcher before rebuilding", where(b.raw["sp"]), "pushed value is not dispatch.registrar()", fn=b.path)
         else:
-            ck.bad("C01.R6", "register_dispatch adds the new dispatcher before rebuilding", where(b.raw["sp"]), "push does not dominate rebuild_interest", fn=b.path)
+            ck.bad(rid, "register_dispatch adds the new dispatcher before rebuilding", where(b.raw["sp"]), "push does not dominate rebuild_interest", fn=b.path)
 
 
 # ------------------------------------------------------------------ R7
